@@ -21,7 +21,7 @@ M = [
   "        actual_unbonded_amount_of_batch = Uint256::from(remaining.0);"),
  ("C02","bond-books-minted-amount", HUB+"bond.rs",
   "                prev_state.total_bond_bsei_amount += payment.amount;", "                prev_state.total_bond_bsei_amount += mint_amount;"),
- ("C02","undelegation-subtracts-swapped-pools", HUB+"unbond.rs",
+ ("C03","undelegation-subtracts-swapped-pools", HUB+"unbond.rs",
   "        .total_bond_stsei_amount\n        .checked_sub(stsei_undelegation_amount)?;\n    state.total_bond_bsei_amount = state\n        .total_bond_bsei_amount\n        .checked_sub(bsei_undelegation_amount)?;",
   "        .total_bond_stsei_amount\n        .checked_sub(bsei_undelegation_amount)?;\n    state.total_bond_bsei_amount = state\n        .total_bond_bsei_amount\n        .checked_sub(stsei_undelegation_amount)?;"),
  ("C03","rate-ignores-pending-requests", "packages/basset/src/hub.rs",
